@@ -61,19 +61,24 @@ def check(ctx):
            "DigestValue has fields %s" % fields)
     pparam = create.positional_params[1]
     for r in returns_of(an, create):
-        off = taint_reaches(an, create, r.ast.value, r, pparam, lambda tg: False)
+        hashed = lambda c: isinstance(c.func, ast.Attribute) and c.func.attr in ("digest", "hexdigest")
+        off = taint_reaches(an, create, r.ast.value, r, pparam, lambda tg: False, ast_sanitizer=hashed)
         ctx.ob("taint.plaintext-not-in-digest-value", create, r.ast, off is None,
                "the plaintext reaches the returned tuple only through the hasher" if off is None else
                "the plaintext flows into the DigestValue: %s" % ast.unparse(off)[:60], node=r)
         v = r.ast.value
-        okd = isinstance(v, ast.Call) and len(v.args) >= 2 and isinstance(v.args[1], ast.Call) and isinstance(v.args[1].func, ast.Attribute) \
-            and v.args[1].func.attr == "digest"
+        okd = isinstance(v, ast.Call) and len(v.args) >= 2 and any(
+            k == "expr" and isinstance(pl, ast.Call) and isinstance(pl.func, ast.Attribute) and pl.func.attr == "digest"
+            for k, pl in value_sources(create, v.args[1], r))
         ctx.ob("digest.from-hasher", create, r.ast, okd, "the stored digest is hasher.digest()" if okd else
                "the digest component is not the hasher's digest", node=r)
     # the hasher is fed salt + plaintext
     g = an.cfg(create)
-    upd = [n for n in g.nodes if n.kind == "call" and isinstance(n.ast.func, ast.Attribute) and n.ast.func.attr == "update" and n.ast.args]
-    ctx.need(bool(upd), "DigestValue.create no longer feeds the hasher: vanished anchor")
+    upd = [n for n in g.nodes if n.kind == "call" and n.ast.args and "plain" in ast.unparse(n.ast.args[0])
+           and not (isinstance(n.ast.func, ast.Name) and n.ast.func.id in ("isinstance", "len", "str", "bytes"))
+           and not (isinstance(n.ast.func, ast.Attribute) and n.ast.func.attr in ("encode", "decode"))
+           and (isinstance(n.ast.func, ast.Attribute) and n.ast.func.attr == "update" or any(t.kind == "user" for t in an.targets(create, n)))]
+    ctx.need(bool(upd), "DigestValue.create no longer feeds the plaintext to a hasher: vanished anchor")
 
     def operands(fn, e):
         """(salt-ish, plaintext-ish) classification of a `a + b` hash input"""
@@ -134,6 +139,9 @@ def check(ctx):
                 if isinstance(e, ast.Compare) and len(e.ops) == 1 and any(isinstance(x, ast.Attribute) and x.attr == "digest" for x in ast.walk(e)):
                     if (isinstance(e.ops[0], ast.NotEq) and tr) or (isinstance(e.ops[0], ast.Eq) and not tr):
                         okc = True
+                if isinstance(e, ast.Call) and ast.unparse(e.func).endswith("compare_digest") and not tr and \
+                        any(isinstance(x, ast.Attribute) and x.attr == "digest" for a in e.args for x in ast.walk(a)):
+                    okc = True
     ctx.ob("challenge.raises-on-mismatch", challenge, "raise when stored digest != recomputed digest", okc,
            "a mismatch raises" if okc else "challenge no longer raises exactly when the digests differ")
     ft = falls_through(an, challenge) or bool(returns_of(an, challenge))
